@@ -71,10 +71,10 @@ func safeMarshal(h *rtp.Header) (b []byte, err error, panicked any) {
 func extSnapshot(h *rtp.Header) string {
 	s := fmt.Sprintf("X%v prof%#x ids=%v", h.Extension, h.ExtensionProfile, h.GetExtensionIDs())
 	for _, id := range h.GetExtensionIDs() {
-		s += fmt.Sprintf(" %d=%x", id, h.GetExtension(id))
+		s += fmt.Sprintf(" %d=%s", id, hb(h.GetExtension(id)))
 	}
 	b, err, pn := safeMarshal(h)
-	s += fmt.Sprintf(" marshal=%x err=%v panic=%v", b, err != nil, pn != nil)
+	s += fmt.Sprintf(" marshal=%s err=%v panic=%v", hb(b), err != nil, pn != nil)
 
 	return s
 }
